@@ -582,7 +582,17 @@ def truth(e, atom, sc=None, depth=6):
             return truth(b.src, atom, sc, depth - 1)
         return None
     if t == "match":
-        vals = {truth(a[2], atom, sc, depth - 1) for a in e[2]}
+        # arms that leave (`Err(e) => return Err(e)`) do not produce a value; `Ok(v) => v` / `Some(v) => v` produce the scrutinee's
+        vals = set()
+        for a in e[2]:
+            body = a[2]
+            if is_node(body) and (body[0] in ("ret", "break", "continue") or (body[0] == "block" and _leaves(body[1]))):
+                continue
+            if is_node(body) and body[0] == "path" and is_node(a[0]) and a[0][0] == "pts" and len(a[0][2]) == 1 and is_node(a[0][2][0]) \
+                    and a[0][2][0][0] == "pident" and a[0][2][0][1] == body[1] and a[0][1].split("::")[-1] in ("Ok", "Some"):
+                vals.add(truth(e[1], atom, sc, depth - 1))
+            else:
+                vals.add(truth(body, atom, sc, depth - 1))
         return vals.pop() if len(vals) == 1 else None
     if t == "if" and e[3] is not None:
         c = truth(e[1], atom, sc, depth - 1)
@@ -594,6 +604,13 @@ def truth(e, atom, sc=None, depth=6):
             return b
         return a if a == b else None
     return None
+
+
+def _leaves(stmts):
+    if not stmts or stmts[-1][0] != "expr":
+        return False
+    x = stmts[-1][1]
+    return is_node(x) and (x[0] in ("ret", "break", "continue") or (x[0] == "macro" and re.search(r"(^|::)(panic|unreachable|todo|unimplemented)$", x[1]) is not None))
 
 
 def contradicted(facts, atom, sc=None):
